@@ -165,8 +165,13 @@ def _cat_row(tf_list: list[TensorFrame]) -> TensorFrame:
             assert tf.y is not None
             ys.append(tf.y)
         y = torch.cat(ys, dim=0)
-    return TensorFrame(feat_dict=_cat_helper(tf_list, dim=0),
-                       col_names_dict=tf_list[0].col_names_dict, y=y)
+    feat_dict = _cat_helper(tf_list, dim=0)
+    # Without features the number of rows must be carried explicitly.
+    num_rows = (sum(len(tf) for tf in tf_list)
+                if len(feat_dict) == 0 else None)
+    return TensorFrame(feat_dict=feat_dict,
+                       col_names_dict=tf_list[0].col_names_dict, y=y,
+                       num_rows=num_rows)
 
 
 def _get_duplicates(lst: list[str]) -> list[str]:
@@ -209,5 +214,14 @@ def _cat_col(tf_list: list[TensorFrame]) -> TensorFrame:
             f"Cannot perform cat(..., dim=1) since the following column names "
             f"are duplicated across stypes: {duplicates}.")
 
-    return TensorFrame(feat_dict=_cat_helper(tf_list, dim=1),
-                       col_names_dict=col_names_dict, y=y)
+    feat_dict = _cat_helper(tf_list, dim=1)
+    num_rows = None
+    if len(feat_dict) == 0:
+        # Without features the number of rows must be carried explicitly.
+        num_rows = len(tf_list[0])
+        if any(len(tf) != num_rows for tf in tf_list):
+            raise RuntimeError(
+                "Cannot perform cat(..., dim=1) since given tensor frames "
+                "have different numbers of rows.")
+    return TensorFrame(feat_dict=feat_dict, col_names_dict=col_names_dict,
+                       y=y, num_rows=num_rows)
